@@ -278,6 +278,17 @@ Fixpoint rrun (r : reducer) (ops : list rop) : reducer * list rres :=
 
 End Machine.
 
+Arguments kfold {M A Obs} r.
+Arguments kinterp {M A Obs} r.
+Arguments kfill {M A Obs} r.
+Arguments kzero {M A Obs} r.
+Arguments kdecay {M A Obs} r.
+Arguments kcounts {M A Obs} r.
+Arguments kcheck {M A Obs} r.
+Arguments set_rec {M A} r x.
+Arguments set_init {M A} r b.
+Arguments set_count {M A} r c.
+Arguments set_inplace {M A} r b.
 Arguments rdt {M A} r.
 Arguments rdur {M A} r.
 Arguments rincl {M A} r.
